@@ -45,9 +45,10 @@ impl<R: Round> Context<R> {
             panic_root_negative()
         }
 
-        // adjust the signifcand so that the exponent is even
+        // adjust the signifcand so that the exponent is even and the significand has 2p-1 or 2p digits
+        // (the integer root then has exactly p digits, so the rounding below is the only one)
         let digits = x.digits() as isize;
-        let shift = self.precision as isize * 2 - (digits & 1) + (x.exponent & 1) - digits;
+        let shift = self.precision as isize * 2 - ((digits ^ x.exponent) & 1) - digits;
         let (signif, low, low_digits) = if shift > 0 {
             (shl_digits::<B>(&x.significand, shift as usize), IBig::ZERO, 0)
         } else {
